@@ -244,6 +244,7 @@ Forms(p, ctx) ==
 ActOf(p, ctx) ==
     LET f == Forms(p, ctx) IN
     IF f # {} THEN CHOOSE x \in f : TRUE
+    ELSE IF p[1] = "HEADER" THEN "HEADER:" \o p[2]
     ELSE IF IsLeaf(p) THEN p[1] ELSE "compound"
 
 ---------------------------------------------------------------------------
